@@ -22,6 +22,7 @@ child is refused before: C12), `child.used_keys.get(&key)` ↦ the model's assoc
 -/
 import KrillModel.Generated.PureFnsC03
 import KrillModel.Ca.Objects
+import KrillModel.Ca.Keys
 namespace KM.Props.C03Src
 open KM.Ca.Pub
 
@@ -75,5 +76,78 @@ example :   -- before 239f0a59: a key in use in another class was "revoked" in t
     genRevoke [0, 1] { usedKeys := [(7, some 1)] } 0 7 = .error () ∧
       toOut (pinnedRevokeAnyClass [0, 1] { usedKeys := [(7, some 1)] } 0 7) = .ok (some 0) :=
   ⟨rfl, rfl⟩
+
+/-! ## `KeyState::revoke` – which keys are revoked when a resource class goes away
+
+When a CA loses a class (the parent de-lists or removes it, the parent is removed, the CA is deleted, the class is
+dropped) it asks the parent to revoke the keys `KeyState::revoke` returns.  The generated definition
+(`KM.Gen.C03.KeyState.revoke`) makes requests for exactly the model's `KeyState.revokeKeys`, and those are exactly the
+keys that hold a certificate of the parent (`certifiedIds`) – the CURRENT key and the NEW or OLD key of a roll in
+progress.  The seeded change C03-r6 folds the `RollNew` arm into the `Active` arm (the certificate of the staged key
+stays published by the parent and off its CRL): the generated definition changes and `gen_revoke_eq_model` stops
+checking; the harness side is the oracle `ClassGoneKeysRevoked` (corpus `system/c03-parent-removed-during-rollnew`). -/
+
+section Revoke
+open KM.CaK
+
+def kvariantOf : KeyState → KM.Gen.C03.KeyState
+  | .pending _ => .Pending
+  | .active _ => .Active
+  | .rollPending .. => .RollPending
+  | .rollNew .. => .RollNew
+  | .rollOld .. => .RollOld
+
+def kcurrent (d : KeyId) : KeyState → KeyId
+  | .active c => c.id | .rollPending _ c => c.id | .rollNew _ c => c.id | .rollOld c _ => c.id | _ => d
+def knew (d : KeyId) : KeyState → KeyId
+  | .rollNew n _ => n.id | _ => d
+def kold (d : KeyId) : KeyState → KeyId
+  | .rollOld _ o => o.id | _ => d
+
+/-- `KeyState::revoke` with a signer that knows every key: one request per key of `revokeKeys`, in that order (the old
+key's stored request is the request for the old key). -/
+theorem gen_revoke_eq_model (ks : KeyState) (d : KeyId) :
+    KM.Gen.C03.KeyState.revoke (ε := Unit) (fun k : KeyId => Except.ok k) (kvariantOf ks) (kcurrent d ks) (knew d ks) (kold d ks) =
+      Except.ok ks.revokeKeys := by
+  cases ks <;> rfl
+
+/-- A signer error for any of the keys is returned (nothing is requested). -/
+theorem gen_revoke_error (ks : KeyState) (d : KeyId) (bad : KeyId) (hb : bad ∈ ks.revokeKeys) (hold : ∀ c o, ks = .rollOld c o → bad ≠ o.id) :
+    KM.Gen.C03.KeyState.revoke (fun k : KeyId => if k = bad then Except.error () else Except.ok k)
+        (kvariantOf ks) (kcurrent d ks) (knew d ks) (kold d ks) = Except.error () := by
+  cases ks with
+  | pending p => simp [KeyState.revokeKeys] at hb
+  | active c => simp [KeyState.revokeKeys] at hb; simp [KM.Gen.C03.KeyState.revoke, kvariantOf, kcurrent, hb]
+  | rollPending p c => simp [KeyState.revokeKeys] at hb; simp [KM.Gen.C03.KeyState.revoke, kvariantOf, kcurrent, hb]
+  | rollNew n c =>
+      simp [KeyState.revokeKeys] at hb
+      simp only [KM.Gen.C03.KeyState.revoke, kvariantOf, kcurrent, knew]
+      rcases hb with hb | hb
+      · simp [hb]
+      · subst hb
+        by_cases hn : n.id = c.id <;> simp [hn]
+  | rollOld c o =>
+      simp [KeyState.revokeKeys] at hb
+      have := hold c o rfl
+      rcases hb with hb | hb
+      · simp [KM.Gen.C03.KeyState.revoke, kvariantOf, kcurrent, hb]
+      · exact absurd hb this
+
+/-- **revoke_covers_certified.**  The keys revoked when the class goes away are exactly the keys that hold a
+certificate of the parent – in every phase of a key roll. -/
+theorem revoke_covers_certified (ks : KeyState) : ks.revokeKeys = ks.certifiedIds := by
+  cases ks <;> rfl
+
+/-- … and every one of them is a key of the state; a pending key (no certificate) is never among them. -/
+theorem revokeKeys_subset_keyIds (ks : KeyState) : ∀ k ∈ ks.revokeKeys, k ∈ ks.keyIds := by
+  cases ks <;> simp [KeyState.revokeKeys, KeyState.keyIds]
+
+/-- The seeded behaviour (C03-r6: `RollNew` treated like `Active`) is not what the generated body does. -/
+example (n c : CertKey) (d : KeyId) :
+    KM.Gen.C03.KeyState.revoke (ε := Unit) (fun k : KeyId => Except.ok k) (kvariantOf (.rollNew n c)) (kcurrent d (.rollNew n c))
+        (knew d (.rollNew n c)) (kold d (.rollNew n c)) ≠ Except.ok [c.id] := by
+  simp [KM.Gen.C03.KeyState.revoke, kvariantOf, kcurrent, knew]
+
+end Revoke
 
 end KM.Props.C03Src
